@@ -74,7 +74,11 @@ pub fn tuples_to_record_batch(
     }
 
     let arrow_schema = Arc::new(schema.to_arrow());
-    RecordBatch::try_new(arrow_schema, columns).map_err(ArrowConvertError::from)
+    // A batch without columns has no array to take its length from: state the row count
+    let options =
+        arrow::record_batch::RecordBatchOptions::new().with_row_count(Some(tuples.len()));
+    RecordBatch::try_new_with_options(arrow_schema, columns, &options)
+        .map_err(ArrowConvertError::from)
 }
 
 /// Convert an Arrow `RecordBatch` back to tuples
